@@ -51,6 +51,11 @@ char *mmd_engine_metadata_keys(mmd_engine *e) { n_meta++; for (int i = 0; i <= N
 static const char *meta_key_seen;
 char *mmd_engine_metavalue_for_key(mmd_engine *e, const char *key) { n_meta++; meta_key_seen = key; for (int i = 0; i <= N; i++) meta_text[i] = ((size_t) i <= e->dstr->currentStringLength) ? e->dstr->str[i] : 0; return (IN.meta_answer & 1) ? (char *) meta_val : (char *) 0; }
 
+/* the pairing tables built by mmd_engine_create are irrelevant to the wrappers: recorder stubs */
+#include "token_pairs.h"
+token_pair_engine *token_pair_engine_new(void) { token_pair_engine *e = malloc(8); return e; }
+void token_pair_engine_free(token_pair_engine *e) { free(e); }
+void token_pair_engine_add_pairing(token_pair_engine *e, unsigned short a, unsigned short b, unsigned short c, int o) {}
 static int plain(short f) { return f == FORMAT_HTML || f == FORMAT_LATEX || f == FORMAT_BEAMER || f == FORMAT_MEMOIR || f == FORMAT_OPML; }
 
 int main(void) {
